@@ -15,17 +15,35 @@ UPairs == UNION { { << Families[i][a], Families[i][b] >> :
 NormOK(s) == ~IsErr(Norm(s))
 Stored == { Norm(s) : s \in { s2 \in AllSpecs : NormOK(s2) } }
 ASSUME \A s \in AllSpecs : WellFormed(s)
-ASSUME \A a \in Stored : PyEq(a, a)
-ASSUME \A a, b \in Stored : PyEq(a, b) = PyEq(b, a)
-ASSUME \A a, b \in Stored : PyEq(a, b) = (Canon(a) = Canon(b))          \* hence transitive
-ASSUME \A a, b \in Stored : PyEq(a, b) => RealHash(a) = RealHash(b)     \* CPython-like hash is legal
-ASSUME \A i \in 1..Len(Families) : \A a, b, c \in { Norm(Families[i][k]) : k \in
-            { k2 \in 1..Len(Families[i]) : NormOK(Families[i][k2]) } } :
+\* strict structural == on the trees without a NaN constant (on those it is the whole meaning)
+Plain == { a \in Stored : ~HasNaN(a) }
+FamStored(i) == { Norm(Families[i][k]) : k \in { k2 \in 1..Len(Families[i]) : NormOK(Families[i][k2]) } }
+ASSUME \A a \in Plain : PyEq(a, a)
+ASSUME \A a, b \in Plain : PyEq(a, b) = PyEq(b, a)
+ASSUME \A a, b \in Plain : PyEq(a, b) = (Canon(a) = Canon(b))          \* hence transitive
+ASSUME \A a, b \in Plain : PyEq(a, b) => RealHash(a) = RealHash(b)     \* CPython-like hash is legal
+ASSUME \A i \in 1..Len(Families) : \A a, b, c \in FamStored(i) \cap Plain :
             (PyEq(a, b) /\ PyEq(b, c)) => PyEq(a, c)
+\* the three-valued meaning (two different objects with trees a, b): it extends PyEq, is
+\* symmetric, "must be equal" is transitive and forces equal hashes, and trees with a NaN
+\* directly in a field are really there and really not strictly == themselves
+ASSUME \A a, b \in Plain : EqTop(a, b) = B3(PyEq(a, b))
+ASSUME \A a, b \in Stored : EqTop(a, b) = EqTop(b, a)
+ASSUME \A a, b \in Stored : EqTop(a, b) = "T" => (RealHash(a) = RealHash(b) /\ Canon(a) = Canon(b))
+ASSUME \A i \in 1..Len(Families) : \A a, b, c \in FamStored(i) :
+            (EqTop(a, b) = "T" /\ EqTop(b, c) = "T") => EqTop(a, c) = "T"
+ASSUME \E a \in Stored : HasNaN(a) /\ ~PyEq(a, a) /\ EqTop(a, a) = "U"
+ASSUME \E a \in Stored : HasNaN(a) /\ ~PyEq(a, a) /\ EqTop(a, a) = "T"     \* NaN in a tuple field
+ASSUME \A a \in Stored : EqTop(a, a) # "F"
 \* the A-layer __eq__ (no cache, no identity) agrees with the meaning on every family pair
 ImplAgrees == \A p \in UPairs : (NormOK(p[1]) /\ NormOK(p[2])) =>
-                 ImplValEq(Norm(p[1]), Norm(p[2])) = PyEq(Norm(p[1]), Norm(p[2]))
+                 LET a == Norm(p[1])  b == Norm(p[2]) IN
+                 IF ~HasNaN(a) /\ ~HasNaN(b) THEN ImplValEq(a, b, FALSE) = PyEq(a, b)
+                 ELSE ~Contradicts(ImplValEq(a, b, FALSE), EqTop(a, b))
 ASSUME Bug = "none" => ImplAgrees
+\* without the identity exit an object holding a NaN directly in a field is not == itself
+ASSUME \E a \in Stored : ~SelfValEq(a, FALSE)
+ASSUME \A a \in Plain : SelfValEq(a, FALSE)
 ASSUME PrintT(<< "laws checked over", Cardinality(Stored), "stored trees", Cardinality(UPairs), "pairs" >>)
 Init == objs = << >> /\ dict = << >> /\ last = 0 /\ cmemo = {}
 Next == UNCHANGED << objs, dict, last, cmemo >>
